@@ -130,6 +130,131 @@ func guard(f func() []any) (res []any) {
 	return f()
 }
 
+// doOp performs one operation of a history: host operations on mem, guest operations through call.
+func doOp(op []any, mem api.Memory, call func(name string, args ...uint64) ([]uint64, error)) []any {
+	u := func(i int) uint64 { return op[i].(uint64) }
+	var o []any
+	switch op[0].(string) {
+	case "ggrow":
+		o = guard(func() []any {
+			res, err := call("grow", u(1))
+			if err != nil {
+				return []any{"trap", err.Error()}
+			}
+			if uint32(res[0]) == 0xffffffff {
+				return fail
+			}
+			return ok(uint64(uint32(res[0])))
+		})
+	case "hgrow":
+		o = guard(func() []any {
+			p, k := mem.Grow(uint32(u(1)))
+			if !k {
+				return fail
+			}
+			return ok(uint64(p))
+		})
+	case "pages":
+		o = guard(func() []any { p, _ := mem.Grow(0); return ok(uint64(p)) })
+	case "gsize":
+		o = guard(func() []any {
+			res, err := call("size")
+			if err != nil {
+				return []any{"trap", err.Error()}
+			}
+			return ok(uint64(uint32(res[0])))
+		})
+	case "size":
+		o = guard(func() []any { return ok(uint64(mem.Size())) })
+	case "read":
+		n, off := u(1), uint32(u(2))
+		o = guard(func() []any {
+			var v uint64
+			var k bool
+			switch n {
+			case 1:
+				var b byte
+				b, k = mem.ReadByte(off)
+				v = uint64(b)
+			case 2:
+				var b uint16
+				b, k = mem.ReadUint16Le(off)
+				v = uint64(b)
+			case 4:
+				var b uint32
+				b, k = mem.ReadUint32Le(off)
+				v = uint64(b)
+			case 8:
+				v, k = mem.ReadUint64Le(off)
+			}
+			if !k {
+				return fail
+			}
+			return ok(v)
+		})
+	case "readr":
+		off, n := uint32(u(1)), uint32(u(2))
+		o = guard(func() []any {
+			b, k := mem.Read(off, n)
+			if !k {
+				return fail
+			}
+			if uint32(len(b)) != n {
+				return []any{"badlen", len(b)}
+			}
+			return ok(0)
+		})
+	case "write":
+		n, off, v := u(1), uint32(u(2)), u(3)
+		o = guard(func() []any {
+			var k bool
+			switch n {
+			case 1:
+				k = mem.WriteByte(off, byte(v))
+			case 2:
+				k = mem.WriteUint16Le(off, uint16(v))
+			case 4:
+				k = mem.WriteUint32Le(off, uint32(v))
+			case 8:
+				k = mem.WriteUint64Le(off, v)
+			}
+			if !k {
+				return fail
+			}
+			return ok(0)
+		})
+	case "writer":
+		off := uint32(u(1))
+		bs := make([]byte, len(op)-2)
+		for i := range bs {
+			bs[i] = byte(u(i + 2))
+		}
+		o = guard(func() []any {
+			if !mem.Write(off, bs) {
+				return fail
+			}
+			return ok(0)
+		})
+	case "gload":
+		o = guard(func() []any {
+			res, err := call("load8", u(1))
+			if err != nil {
+				return fail
+			}
+			return ok(uint64(uint32(res[0])))
+		})
+	case "gstore":
+		o = guard(func() []any {
+			_, err := call("store8", u(1), u(2))
+			if err != nil {
+				return fail
+			}
+			return ok(0)
+		})
+	}
+	return o
+}
+
 func runCase(ctx context.Context, cf Cfg, engine string, ops [][]any, front bool) Case {
 	cs := Case{Cfg: cf, Engine: engine, Ops: ops, Front: front}
 	var rc wazero.RuntimeConfig
@@ -191,126 +316,7 @@ func runCase(ctx context.Context, cf Cfg, engine string, ops [][]any, front bool
 			p, _ := frontMem.Grow(0)
 			cs.FrontPg = append(cs.FrontPg, p)
 		}
-		u := func(i int) uint64 { return op[i].(uint64) }
-		var o []any
-		switch op[0].(string) {
-		case "ggrow":
-			o = guard(func() []any {
-				res, err := call("grow", u(1))
-				if err != nil {
-					return []any{"trap", err.Error()}
-				}
-				if uint32(res[0]) == 0xffffffff {
-					return fail
-				}
-				return ok(uint64(uint32(res[0])))
-			})
-		case "hgrow":
-			o = guard(func() []any {
-				p, k := mem.Grow(uint32(u(1)))
-				if !k {
-					return fail
-				}
-				return ok(uint64(p))
-			})
-		case "pages":
-			o = guard(func() []any { p, _ := mem.Grow(0); return ok(uint64(p)) })
-		case "gsize":
-			o = guard(func() []any {
-				res, err := call("size")
-				if err != nil {
-					return []any{"trap", err.Error()}
-				}
-				return ok(uint64(uint32(res[0])))
-			})
-		case "size":
-			o = guard(func() []any { return ok(uint64(mem.Size())) })
-		case "read":
-			n, off := u(1), uint32(u(2))
-			o = guard(func() []any {
-				var v uint64
-				var k bool
-				switch n {
-				case 1:
-					var b byte
-					b, k = mem.ReadByte(off)
-					v = uint64(b)
-				case 2:
-					var b uint16
-					b, k = mem.ReadUint16Le(off)
-					v = uint64(b)
-				case 4:
-					var b uint32
-					b, k = mem.ReadUint32Le(off)
-					v = uint64(b)
-				case 8:
-					v, k = mem.ReadUint64Le(off)
-				}
-				if !k {
-					return fail
-				}
-				return ok(v)
-			})
-		case "readr":
-			off, n := uint32(u(1)), uint32(u(2))
-			o = guard(func() []any {
-				b, k := mem.Read(off, n)
-				if !k {
-					return fail
-				}
-				if uint32(len(b)) != n {
-					return []any{"badlen", len(b)}
-				}
-				return ok(0)
-			})
-		case "write":
-			n, off, v := u(1), uint32(u(2)), u(3)
-			o = guard(func() []any {
-				var k bool
-				switch n {
-				case 1:
-					k = mem.WriteByte(off, byte(v))
-				case 2:
-					k = mem.WriteUint16Le(off, uint16(v))
-				case 4:
-					k = mem.WriteUint32Le(off, uint32(v))
-				case 8:
-					k = mem.WriteUint64Le(off, v)
-				}
-				if !k {
-					return fail
-				}
-				return ok(0)
-			})
-		case "writer":
-			off := uint32(u(1))
-			bs := make([]byte, len(op)-2)
-			for i := range bs {
-				bs[i] = byte(u(i + 2))
-			}
-			o = guard(func() []any {
-				if !mem.Write(off, bs) {
-					return fail
-				}
-				return ok(0)
-			})
-		case "gload":
-			o = guard(func() []any {
-				res, err := call("load8", u(1))
-				if err != nil {
-					return fail
-				}
-				return ok(uint64(uint32(res[0])))
-			})
-		case "gstore":
-			o = guard(func() []any {
-				_, err := call("store8", u(1), u(2))
-				if err != nil {
-					return fail
-				}
-				return ok(0)
-			})
-		}
+		o := doOp(op, mem, call)
 		cs.Obs = append(cs.Obs, o)
 		fresh := -1
 		if pg2, _ := mem.Grow(0); pg2 > pg {
@@ -336,6 +342,7 @@ func main() {
 	seed := flag.Uint64("seed", 1, "")
 	n := flag.Int("n", 200, "")
 	huge := flag.Int("huge", 6, "number of cases allowed to allocate around 4GiB")
+	nx := flag.Int("nx", 120, "number of extended configurations (refusing allocator, shared, imported)")
 	flag.Parse()
 	rng := c.NewRng(*seed)
 	out := c.NewOut()
@@ -404,6 +411,7 @@ func main() {
 		eng string
 		ops [][]any
 		huge bool
+		x    func() XCase // extended case (xcases.go)
 	}
 	var jobs []job
 	hugeLeft := *huge
@@ -453,7 +461,7 @@ func main() {
 			if big && eng == "compiler" && rng.Intn(2) == 0 {
 				continue
 			}
-			jobs = append(jobs, job{cf, eng, ops, big || allowHuge || reserve})
+			jobs = append(jobs, job{cf: cf, eng: eng, ops: ops, huge: big || allowHuge || reserve})
 		}
 	}
 	// fixed witnesses: 65536 pages on both engines (F12 lives here), and the 4GiB end-of-memory accesses (F13)
@@ -463,10 +471,22 @@ func main() {
 			{"read", uint64(2), uint64(1<<32 - 2)}, {"readr", uint64(1<<32 - 16), uint64(16)}, {"write", uint64(8), uint64(1<<32 - 8), uint64(0x1122334455667788)},
 			{"read", uint64(1), uint64(1<<32 - 1)}, {"gload", uint64(1<<32 - 1)}, {"hgrow", uint64(1)}, {"ggrow", uint64(1)}, {"read", uint64(4), uint64(1<<32 - 3)}}
 		for _, eng := range []string{"interp", "compiler"} {
-			jobs = append(jobs, job{cf, eng, ops, true})
+			jobs = append(jobs, job{cf: cf, eng: eng, ops: ops, huge: true})
+		}
+	}
+	nbase := len(jobs)
+	{
+		xrng := c.NewRng(*seed*7919 + 13)
+		cfs, opss, views, hf := xJobs(xrng, *nx, *huge > 0)
+		for i := range cfs {
+			for _, eng := range []string{"interp", "compiler"} {
+				cf, ops, view, eng := cfs[i], opss[i], views[i], eng
+				jobs = append(jobs, job{eng: eng, huge: hf[i], x: func() XCase { return runXCase(ctx, cf, eng, ops, view) }})
+			}
 		}
 	}
 	res := make([]Case, len(jobs))
+	xres := make([]XCase, len(jobs))
 	var wg sync.WaitGroup
 	for _, phase := range []bool{false, true} {
 		width := 8
@@ -483,7 +503,11 @@ func main() {
 			go func(i int) {
 				defer wg.Done()
 				defer func() { <-sem }()
-				res[i] = runCase(ctx, jobs[i].cf, jobs[i].eng, jobs[i].ops, !jobs[i].huge && jobs[i].cf.Limit >= 6 && (i/2)%2 == 1)
+				if jobs[i].x != nil {
+					xres[i] = jobs[i].x()
+				} else {
+					res[i] = runCase(ctx, jobs[i].cf, jobs[i].eng, jobs[i].ops, !jobs[i].huge && jobs[i].cf.Limit >= 6 && (i/2)%2 == 1)
+				}
 				if jobs[i].huge {
 					debug.FreeOSMemory()
 				}
@@ -492,7 +516,11 @@ func main() {
 		wg.Wait()
 	}
 	for i := range res {
-		out.Emit(res[i])
+		if i < nbase {
+			out.Emit(res[i])
+		} else {
+			out.Emit(xres[i])
+		}
 	}
 	_ = os.Stdout
 }
